@@ -1,6 +1,128 @@
-// matrix_tri.h — triangular/symmetric/hermitian-committed Matrix_ (C25)
+// matrix_tri.h — Matrix_ handles committed to Triangular / Symmetric / Hermitian / SkewSymmetric /
+// SkewHermitian structure (MatrixCommitment, MatrixHelperRep_Tri.h): stored elements are written with
+// updElt(i,j), every logical element is read back with the documented getAnyElt(i,j) and compared
+// with a dense reference; resize/resizeKeep/setToZero/diag() are exercised. "withCopies" additionally
+// deep-copies such matrices (copy constructor), which clones the helper.
 #pragma once
 #include "matrix_ref.h"
+
 namespace mx {
-inline void runTriCase(vh::Ctx& c, vh::Rng& r, long idx, bool withCopies) { c.skip("tri-part-not-built"); }
+using namespace SimTK;
+
+template <class E> struct TriCase {
+    typedef typename ET<E>::P P; typedef std::complex<P> C; enum { K = ET<E>::K, Cplx = ET<E>::Cplx };
+    vh::Ctx& c; vh::Rng& r; int structure; bool withCopies;
+    std::vector<std::string> hist;
+    static const char* sname(int s) { static const char* n[] = {"Triangular", "Symmetric", "Hermitian", "SkewSymmetric", "SkewHermitian"}; return n[s]; }
+    MatrixCommitment commitment() const {
+        switch (structure) { case 0: return MatrixCommitment::Triangular(); case 1: return MatrixCommitment::Symmetric(); case 2: return MatrixCommitment::Hermitian();
+                             case 3: return MatrixCommitment::SkewSymmetric(); default: return MatrixCommitment::SkewHermitian(); }
+    }
+    // model: stored upper triangle (i<=j) as logical element values; ref(i,j) gives any element
+    int nr = 0, nc = 0; std::vector<C> up;     // (i + j*n)*K + k for i<=j<n, n=min(nr,nc)
+    int n() const { return std::min(nr, nc); }
+    C refElt(int i, int j, int k) const {
+        const int q = n();
+        if (i <= j && j < q) return up[(size_t)(i + j * q) * K + k];
+        if (structure == 0 || i >= q || j >= q) return C(0, 0);
+        C x = up[(size_t)(j + i * q) * K + k];
+        if (structure == 2 || structure == 4) x = std::conj(x);      // elementwise hermitian transpose (scalar/vector elements: conjugate each scalar)
+        if (structure >= 3) x = -x;
+        return x;
+    }
+    C randS(bool diag) {
+        P re = (P)r.sym(5.0), im = Cplx ? (P)r.sym(5.0) : P(0);
+        if (diag) { if (structure == 2) im = 0; if (structure == 3) { re = 0; im = 0; } if (structure == 4) re = 0; }   // diagonal invariants
+        return C(re, im);
+    }
+    std::string key(const std::string& op) const { return "tri:" + op + ":" + sname(structure) + ":" + ET<E>::name(); }
+    bool compare(Matrix_<E>& m, const std::string& op) {
+        c.cover(op + "|" + sname(structure) + "|" + ET<E>::name());
+        if (m.nrow() != nr || m.ncol() != nc) { c.viol("tri-shape:" + op + ":" + sname(structure) + ":" + ET<E>::name(), vh::Json::obj().set("lib_nrow", m.nrow()).set("lib_ncol", m.ncol()).set("nrow", nr).set("ncol", nc).set("history", hj())); return false; }
+        for (int j = 0; j < nc; ++j) for (int i = 0; i < nr; ++i) {
+            E e = m.getAnyElt(i, j); C got[K]; ET<E>::get(e, got);
+            for (int k = 0; k < K; ++k) if (!sameC(got[k], refElt(i, j, k))) {
+                c.viol(key(op), vh::Json::obj().set("i", i).set("j", j).set("scalar", k).set("expected", jC(refElt(i, j, k))).set("got", jC(got[k])).set("nrow", nr).set("ncol", nc).set("history", hj()));
+                return false;
+            }
+        }
+        c.check("tri-exact:" + op + ":" + sname(structure) + ":" + ET<E>::name(), 0, 0, nullptr);
+        return true;
+    }
+    vh::Json hj() const { vh::Json h = vh::Json::arr(); for (auto& s : hist) h.push(vh::Json(s)); return h; }
+    void fillStored(Matrix_<E>& m, int fromRowCol) {   // write stored elements with index >= fromRowCol in either dimension
+        const int q = n();
+        for (int j = 0; j < q; ++j) for (int i = 0; i <= j; ++i) {
+            if (i < fromRowCol && j < fromRowCol) continue;
+            C v[K]; for (int k = 0; k < K; ++k) v[k] = randS(i == j);
+            m.updElt(i, j) = ET<E>::make(v);
+            for (int k = 0; k < K; ++k) up[(size_t)(i + j * q) * K + k] = v[k];
+        }
+    }
+    void log(const std::string& s) { hist.push_back(s); c.setPhase(std::string("tri ") + sname(structure) + " " + ET<E>::name() + ": " + s); }
+    void run() {
+        Matrix_<E> m{commitment()};
+        nr = nc = r.integer(1, 6); if (structure == 0 && r.coin(0.3)) nc = nr + r.integer(1, 2);
+        log("Matrix_<" + ET<E>::name() + ">(MatrixCommitment::" + sname(structure) + "()); resize(" + std::to_string(nr) + "," + std::to_string(nc) + "); write stored elements");
+        m.resize(nr, nc);
+        up.assign((size_t)n() * n() * K, C(0, 0));
+        fillStored(m, 0);
+        if (!compare(m, "resize+write-stored")) return;
+        int steps = r.integer(3, 8);
+        for (int s = 0; s < steps; ++s) {
+            int op = r.integer(0, withCopies ? 5 : 4);
+            if (op == 0) {   // overwrite a stored element
+                int j = r.integer(0, n() - 1), i = r.integer(0, j); C v[K]; for (int k = 0; k < K; ++k) v[k] = randS(i == j);
+                log("updElt(" + std::to_string(i) + "," + std::to_string(j) + ") = value");
+                m.updElt(i, j) = ET<E>::make(v); for (int k = 0; k < K; ++k) up[(size_t)(i + j * n()) * K + k] = v[k];
+                if (!compare(m, "updElt")) return;
+            } else if (op == 1) {   // resizeKeep (square)
+                int q0 = n(), q1 = r.integer(1, 7); std::vector<C> old = up;
+                log("resizeKeep(" + std::to_string(q1) + "," + std::to_string(q1) + ")");
+                m.resizeKeep(q1, q1); nr = nc = q1; up.assign((size_t)q1 * q1 * K, C(0, 0));
+                for (int j = 0; j < std::min(q0, q1); ++j) for (int i = 0; i <= j; ++i) for (int k = 0; k < K; ++k) up[(size_t)(i + j * q1) * K + k] = old[(size_t)(i + j * q0) * K + k];
+                fillStored(m, std::min(q0, q1));
+                if (!compare(m, q1 > q0 ? "resizeKeep-grow" : q1 < q0 ? "resizeKeep-shrink" : "resizeKeep-same")) return;
+            } else if (op == 2) {   // resize: contents redefined by the client
+                int q1 = r.integer(1, 7); log("resize(" + std::to_string(q1) + "," + std::to_string(q1) + ") + write stored");
+                m.resize(q1, q1); nr = nc = q1; up.assign((size_t)q1 * q1 * K, C(0, 0)); fillStored(m, 0);
+                if (!compare(m, "resize")) return;
+            } else if (op == 3) {   // setToZero
+                log("setToZero()"); m.setToZero(); for (auto& x : up) x = C(0, 0);
+                if (!compare(m, "setToZero")) return;
+            } else if (op == 4) {   // diagonal view read and write-through
+                const int q = n();
+                log("diag() view: read, then write through updDiag()");
+                VectorView_<E> d = m.updDiag();
+                bool ok = d.size() == q;
+                for (int i = 0; ok && i < q; ++i) { C got[K]; ET<E>::get(d[i], got); for (int k = 0; k < K; ++k) if (!sameC(got[k], refElt(i, i, k))) ok = false; }
+                c.cover(std::string("diag-view|") + sname(structure) + "|" + ET<E>::name());
+                if (!c.require(key("diag-view-read"), ok, [&] { return vh::Json::obj().set("history", hj()); })) return;
+                for (int i = 0; i < q; ++i) { C v[K]; for (int k = 0; k < K; ++k) v[k] = randS(true); d[i] = ET<E>::make(v); for (int k = 0; k < K; ++k) up[(size_t)(i + i * q) * K + k] = v[k]; }
+                if (!compare(m, "diag-view-write")) return;
+            } else {   // deep copy (copy constructor); both objects are destroyed at the end of the scope
+                log("Matrix_ copy(m): deep copy, compare, destroy copy");
+                Matrix_<E> cp(m);
+                if (!compare(cp, "deep-copy")) return;
+                if (!compare(m, "source-after-deep-copy")) return;
+            }
+        }
+        log("destroy");
+    }
+};
+
+inline void runTriCase(vh::Ctx& c, vh::Rng& r, long idx, bool withCopies) {
+    int structure = (int)(idx % 5), et = (int)((idx / 5) % 4);
+    try {
+        switch (et) {
+        case 0: { TriCase<Real> t{c, r, structure, withCopies}; t.run(); break; }
+        case 1: { TriCase<Complex> t{c, r, structure, withCopies}; t.run(); break; }
+        case 2: { TriCase<Vec3> t{c, r, structure, withCopies}; t.run(); break; }
+        default: { TriCase<float> t{c, r, structure, withCopies}; t.run(); break; }
+        }
+    } catch (const std::exception& ex) {
+        c.viol("tri-exception:" + vh::normMsg(ex.what()).substr(0, 100), vh::Json::obj().set("what", vh::firstLine(ex.what(), 400)).set("phase", c.phase));
+    }
 }
+
+} // namespace mx
